@@ -51,6 +51,30 @@ func runC03(c *Ctx) {
 		}
 	})
 
+	// the pack function is used exactly once, directly: every reply goes through the steps checked below
+	{
+		c.rule("R2", "the packed message is the plugins' response or SetReply(query) with SERVFAIL (error) / REFUSED (no answer)", 3)
+		pk := h.Params[len(h.Params)-1]
+		nCalls, escapes := 0, ""
+		eachInstrDeep(h, func(f *ssa.Function, in ssa.Instruction) {
+			ci, ok := in.(ssa.CallInstruction)
+			if !ok {
+				return
+			}
+			if callName(ci) == "dynamic" && isParamValue(p, ci.Common().Value, pk) {
+				nCalls++
+				return
+			}
+			for _, a := range ci.Common().Args {
+				if isParamValue(p, a, pk) {
+					escapes = callName(ci)
+				}
+			}
+		})
+		c.check(nCalls == 1 && escapes == "", "single-pack-site", h.Pos(), "the reply is packed at exactly one place in Handle",
+			fmt.Sprintf("the pack function is called %d times / handed to %q: some replies bypass RA forcing, OPT re-attachment or UDP truncation", nCalls, escapes))
+	}
+
 	// ---------------------------------------------------------------- R1
 	c.rule("R1", "malformed queries are rejected before the entry runs and get no reply", 5)
 	if execCall == nil || newCtx == nil {
@@ -276,6 +300,7 @@ func runC03(c *Ctx) {
 	// ---------------------------------------------------------------- R5
 	c.rule("R5", "every response set by a built-in plugin derives from the query it answers", 12)
 	runC03R5(c)
+	checkHitID(c) // the cache copy must carry the id of the query it now answers
 
 	// ---------------------------------------------------------------- R6
 	c.rule("R6", "the query's question / id is modified only on a context copy or under a deferred restore", 2)
@@ -310,6 +335,34 @@ func runC03(c *Ctx) {
 		})
 		c.check(restoreOK, "redirect:reply-question", rd.Pos(), "question names equal to the target are reset to the original in the reply", "redirect does not restore the original name in the reply's question section")
 		c.check(cnameOK, "redirect:cname", rd.Pos(), "a CNAME owner=original is prepended", "redirect does not insert the CNAME from the original name")
+	}
+
+	// ---------------------------------------------------------------- R9
+	c.rule("R9", "context copies are deep: a copy's query and response are Copy()s of the original's", 2)
+	if ct := c.fn(relQctx, "Context", "CopyTo"); ct != nil {
+		for _, fld := range []string{"query", "resp"} {
+			good, n := true, 0
+			eachInstr(ct, func(in ssa.Instruction) {
+				st, ok := in.(*ssa.Store)
+				if !ok {
+					return
+				}
+				if k, _ := fieldKey(st.Addr); k != relQctx+".Context."+fld {
+					return
+				}
+				n++
+				cl, ok := st.Val.(*ssa.Call)
+				if !ok || callName(cl) != "(*github.com/miekg/dns.Msg).Copy" {
+					good = false
+					return
+				}
+				if k, _ := loadedField(cl.Call.Args[0]); k != relQctx+".Context."+fld {
+					good = false
+				}
+			})
+			c.check(good && n > 0, "deep-copy:"+fld, ct.Pos(), "copy."+fld+" = original."+fld+".Copy()",
+				"a context copy shares its "+fld+" message with the original: plugins that rewrite the question or response on a 'copy' (dual-stack selector, fallback, lazy refresh) change the live query")
+		}
 	}
 
 	// ---------------------------------------------------------------- R8
